@@ -14,7 +14,7 @@ class Grammar(qc.FullGrammar):
     payload = 0
 
     def build_graph(self, P, h):
-        n = qc.build_full_graph(P, h, allow_workloop=True)
+        n = qc.build_full_graph(P, h, allow_workloop=True, allow_main=True)
         P.groups = [0]
         P.pool_done = True
         P.accept = {}         # ctx -> (must set, may set) of custom queues dispatch_assert_queue accepts there
